@@ -9,6 +9,7 @@ THEOREMS = ["C05_Inv_wake_preserved", "C05_Inv_wake_every_history", "C05_snapsho
             "C05_never_late_never_lost", "C05_complete_run_wakes_at_deadline", "C05_futures_keep_invariant",
             "C05_composite_event_is_driver_event", "C05_woken_through_last_poller",
             "C05_composite_sleep_exact", "C05_composite_sleep_prefix", "C05_fragment_scripts_decode_ok",
+            "C05_removal_by_id_needs_distinct_ids",
             "C05_due_deadline_completes_immediately",
             "C05_timeout_ok_iff_inner_first", "C05_interval_ticks"]
 QUICK_N = 2500; THOROUGH_N = 150000
@@ -16,7 +17,9 @@ RULE = ("scripts = 1..6 tasks on 1..2 async modules, each task a list of sleep /
         "select!{sleep a, sleep b} (biased or not) / interval(period, Burst|Delay|Skip, busy delays between ticks) / "
         "pinned sleep polled+reset / pinned sleep polled+dropped / boxed sleep polled and handed to another task of the module, which "
         "awaits it / timeout or select! around a channel receive that is satisfied by a message event (a task spawned by a message that "
-        "sends at once), cancelling the module's earliest timer while its wake-up event is already scheduled / log steps, tasks spawned at start-up or by a message at a scripted "
+        "sends at once), cancelling the module's earliest timer while its wake-up event is already scheduled / keep-alive timers created "
+        "disarmed as far-future sleeps (Duration::MAX, at t = 0 and later), armed by reset to deadlines shared across tasks, re-armed or "
+        "dropped before them / log steps, tasks spawned at start-up or by a message at a scripted "
         "instant; durations drawn from a small tie-rich set (0,1,5,10,15,20 ns, ms-scale around the 5 ms missed-tick threshold, "
         "far future), structured so that cancelled/dropped/reset timers precede live ones, deadlines coincide across tasks, "
         "messages arrive at wake-up instants; non-trivial = distinct script hitting >= 2 targeted mechanisms")
@@ -26,6 +29,10 @@ TRUSTED = ["tasks are scripts over the timer API (no channels between tasks: tas
            "a task that wakes itself is polled again in the same event",
            "the composition of driver + futures + executor + event set (coq/Timer/Model.v) is validated by these differential runs, not proved"]
 ASSUMPTIONS = ["fewer than 61 task polls per event (tokio's budget is C06's subject)",
+               "a duration >= 2^61 in a script stands for Duration::MAX (deadline SimTime::MAX, printed as 2^62 - 1); finite deadlines "
+               "close to SimTime::MAX are not generated (their wake-up event would make the calendar queue scan ~10^20 buckets); finite "
+               "deadlines above 2 * 10^13 ns occur only on timers that are cancelled before they are scheduled",
+               "the verification hook reports entry counts, not entry ids: id distinctness is proved for the model, not observed on the real driver",
                "generated scripts use every hand-over channel for one send and at most one receive (the order in which tokio runs "
                "timer-woken and freshly spawned tasks within one event is not modelled, so competing senders/receivers are avoided); "
                "the monitor does not constrain a task after a receive on a channel with several senders or receivers; generated scripts "
@@ -43,7 +50,10 @@ CLAIM = dict(
          "the driver only through contract-respecting register/drop/reset operations (so the invariant covers them); Timeout polled promptly "
          "yields the value iff the value is ready no later than the deadline (tie: value), else Elapsed at the deadline; interval ticks are "
          "start + k*period when no tick is more than 5 ms late and always under Burst, Delay re-bases on now, Skip jumps to the next "
-         "aligned instant after now; a registered Sleep polled again by any task (it may have moved) is registered once and woken "
+         "aligned instant after now; a far-future Sleep (now + duration not representable, deadline SimTime::MAX) is registered like any "
+         "other, never gets a wake-up and never elapses (Inv_wake speaks about deadlines below SimTime::MAX); removal by id takes out "
+         "exactly the asking Sleep's entry provided the ids of a slot are distinct, and every Sleep a task step creates draws a fresh id "
+         "(C05_removal_by_id_needs_distinct_ids; the shared-id variant is refuted); a registered Sleep polled again by any task (it may have moved) is registered once and woken "
          "through the task that polled it last. The pinned next() (front slot only) is refuted in Coq by the history register a@5, drop a, "
          "register b@10, deactivate, the pinned never-refreshed waker by a hand-over script in which the receiving task never resumes. In the composite model (coq/Timer/Model.v: scripted tasks, FIFO executor, drivers, event set, waker table) every "
          "module event is proved to be one such driver event with a contract-respecting operation list, and for the fragment "
@@ -56,7 +66,9 @@ CLAIM = dict(
          "result, end time and -- through the hook Driver::verif_snapshot -- the state of every module's timer driver after every event "
          "(slots with entry counts, next_wakeup); an independent monitor checks on the implementation's log that every await returned at "
          "exactly the deadline computed from the script, and evaluates Inv_wake itself on the real driver's snapshots "
-         "(C05_snapshot_invariant: sorted slots, live front slot, now <= next_wakeup <= earliest live deadline, no live timer when the event set is empty).",
+         "(C05_snapshot_invariant: sorted slots, live front slot, now <= next_wakeup <= earliest live deadline, no live finite timer when the "
+         "event set is empty; every slot stands for a deadline that some Sleep of the script has, which pins `now + duration` exactly, also "
+         "above 2^53 ns).",
     note="partial: driver and future layers proved for all histories; the composite proved end to end for the sleep/sleep_until/log "
          "fragment; for timeout/select/interval/reset/drop/hand-over/receive steps the composition with the executor and the event loop "
          "is validated by differential runs (incl. driver snapshots) only. tokio itself is modelled as a FIFO executor. Out of scope: tokio's 61-poll budget (C06); the order in which tokio runs timer-woken and freshly "
@@ -67,10 +79,22 @@ CLAIM = dict(
               "exists-witness refutation of the pinned code; differential correspondence check + property monitor",
     design="6/C05")
 
+FARK = 1 << 61            # a duration >= FARK stands for Duration::MAX (deadline SimTime::MAX: never elapses)
+TMAX = (1 << 62) - 1      # how SimTime::MAX is printed
+INF = float("inf")
+
+
+def eff(d):
+    return INF if d >= FARK else d
+
+
 MS = 1000000
 GRACE = 5 * MS
 SMALL = [0, 1, 5, 5, 5, 10, 10, 10, 15, 20, 25]
 FAR = [3600 * 10**9, 10**12, 123456789012]
+# never-firing positions only (select loser, timeout delay, dropped / reset timers): deadlines with odd nanoseconds above 2^53,
+# where `now + d` is not exact in f64; a timer that FIRES there would cost ~4e9 calendar-queue scan steps
+FAR_ODD = [10**16 + 1, 2**53 + 3, 10**16 + 7, FARK, FARK]
 PERIODS = [10 * MS, 10 * MS, 7 * MS, 1, 25 * MS]
 BUSY = [0, 0, 0, 3 * MS, 5 * MS, 5 * MS + 1, 12 * MS, 15 * MS, 25 * MS, 37 * MS, 10 * MS]
 
@@ -127,6 +151,8 @@ def parse_steps(b):
             out.append(("trecv", b[i + 1], b[i + 2])); i += 3
         elif t == 12 and left >= 3:
             out.append(("selrecv", b[i + 1] % 2 == 1, b[i + 2], b[i + 3])); i += 4
+        elif t == 13 and left >= 5:
+            out.append(("keep", b[i + 1] % 2 == 1, b[i + 2], b[i + 3], b[i + 4], b[i + 5])); i += 6
         else:
             break
     return out
@@ -145,6 +171,7 @@ def enc_step(s):
     if k == "recv": return [10, s[1]]
     if k == "trecv": return [11, s[1], s[2]]
     if k == "selrecv": return [12, 1 if s[1] else 0, s[2], s[3]]
+    if k == "keep": return [13, 1 if s[1] else 0, s[2], s[3], s[4], s[5]]
     return [8]
 
 
@@ -174,6 +201,8 @@ def join(hdr, ops):
 
 
 def fmt(x):
+    if x >= FARK:
+        return "MAX"
     if x >= MS and x % MS == 0:
         return "%dms" % (x // MS)
     return "%d" % x
@@ -193,6 +222,9 @@ def pretty_step(s):
     if k == "trecv": return "timeout(%s, ch%d.recv())" % (fmt(s[1]), s[2])
     if k == "selrecv": return ("select_biased(ch%d.recv(), sleep(%s))" if s[1] else "select_biased(sleep(%s), ch%d.recv())") % (
         (s[2], fmt(s[3])) if s[1] else (fmt(s[3]), s[2]))
+    if k == "keep":
+        return "keepalive(sleep(%s).polled.reset(now+%s); select_biased(it, sleep(%s)) then %s)" % (
+            fmt(s[2]), fmt(s[3]), fmt(s[4]), ("reset(now+%s).await" % fmt(s[5])) if s[1] else "drop")
     return "log"
 
 
@@ -228,11 +260,43 @@ def walk_task(t, sends, chans):
     now = t["start"]
     recs, timers = [], []
     status, sent = "done", {}
-    info = {"cancels": [], "ties": 0}   # timers cancelled by the arrival of a boxed Sleep; arrivals in the instant of the deadline
+    info = {"cancels": [], "ties": 0, "keeps": [], "far_after0": 0}   # timers cancelled by the arrival of a boxed Sleep;
+    # arrivals in the instant of the deadline; keep-alive timers; far-future sleeps created at t > 0
     for s in t["steps"]:
         k = s[0]
-        if k in ("trecv", "selrecv"):
-            ch, d = (s[2], s[1]) if k == "trecv" else (s[2], s[3])
+        if now == INF:
+            # the previous await never returns (its deadline is SimTime::MAX): the task legitimately waits for ever
+            recs.pop(); now = None; status = "blocked"; break
+        fars = {"timeout": [s[1]] if k == "timeout" else [], "select": list(s[2:4]), "reset": list(s[2:4]), "drop": [s[1]] if k == "drop" else [],
+                "trecv": [s[1]] if k == "trecv" else [], "selrecv": [s[3]] if k == "selrecv" else [],
+                "keep": [s[2], s[3], s[5]] if k == "keep" else []}.get(k, [])
+        # every deadline under which a Sleep of this step may get registered (liberal: used to recognise foreign slots)
+        dls = info.setdefault("dls", set())
+        for x in {"sleep": [s[1]] if k == "sleep" else [], "timeout": [s[1], s[2] or 0] if k == "timeout" else [], "hand": [s[2]] if k == "hand" else [],
+                  "keep": [s[2], s[3], s[4]] if k == "keep" else []}.get(k, fars):
+            dls.add(now + eff(x))
+        if k == "until": dls.add(s[1])
+        if k == "keep": dls.add(now + s[4] + eff(s[5]))
+        if now > 0 and any(x >= FARK for x in fars):
+            info["far_after0"] += 1
+        if now == 0 and any(x >= FARK for x in fars):
+            info["far_at0"] = info.get("far_at0", 0) + 1
+        if k == "keep":
+            rearm, d0, d2, x, d3 = s[1:6]
+            D, tx = now + eff(d2), now + x
+            timers.append((now, now + eff(d0), eff(d0) > 0, now))
+            timers.append((now, D, eff(d2) > 0, min(D, tx))); timers.append((now, tx, x > 0 and eff(d2) > 0, min(D, tx)))
+            info["keeps"].append({"far0": d0 >= FARK, "at": now, "D": D, "cut": tx if tx < D else None})
+            if D <= tx:
+                now = D; recs.append([(now, 0)])
+            else:
+                now = tx; recs.append([(now, 1)])
+                if rearm:
+                    timers.append((now, now + eff(d3), eff(d3) > 0, now + eff(d3))); now = now + eff(d3); recs.append([(now,)])
+                else:
+                    recs.append([(now,)])
+        elif k in ("trecv", "selrecv"):
+            ch, d = (s[2], eff(s[1])) if k == "trecv" else (s[2], eff(s[3]))
             rf = True if k == "trecv" else s[1]       # Timeout polls its value first
             won, lost = ((now, 1), (now + d, 0)) if k == "trecv" else ((now, 0), (now + d, 1))
             key = (t["mod"], ch)
@@ -286,7 +350,7 @@ def walk_task(t, sends, chans):
         elif k == "until":
             d = max(now, s[1]); timers.append((now, d, d > now, d)); now = d; recs.append([(now,)])
         elif k == "timeout":
-            d, x = s[1], s[2]
+            d, x = eff(s[1]), s[2]
             if x is None:
                 # the value is ready on its second poll in the instant of creation
                 timers.append((now, now + d, d > 0, now))
@@ -297,7 +361,7 @@ def walk_task(t, sends, chans):
                 now = fin
                 recs.append([(now, 1 if x <= d else 0)])
         elif k == "select":
-            biased, a, b = s[1], s[2], s[3]
+            biased, a, b = s[1], eff(s[2]), eff(s[3])
             fin = now + min(a, b)
             timers.append((now, now + a, a > 0, fin)); timers.append((now, now + b, min(a, b) > 0, fin))
             now = fin
@@ -310,6 +374,7 @@ def walk_task(t, sends, chans):
             dl = now
             for b in busy:
                 timers.append((now, dl, dl > now, max(now, dl)))
+                info["dls"].add(dl)
                 now = max(now, dl)
                 recs.append([(now, dl)])
                 if now > dl + GRACE:
@@ -317,16 +382,21 @@ def walk_task(t, sends, chans):
                 else:
                     dl = dl + p
                 if b > 0:
+                    info["dls"].add(now + b)
                     timers.append((now, now + b, True, now + b)); now += b; recs.append([(now,)])
         elif k == "reset":
-            polled, d1, d2 = s[1], s[2], s[3]
+            polled, d1, d2 = s[1], eff(s[2]), eff(s[3])
             if polled:
                 timers.append((now, now + d1, d1 > 0, now))
             timers.append((now, now + d2, d2 > 0, now + d2)); now += d2; recs.append([(now,)])
         elif k == "drop":
-            timers.append((now, now + s[1], s[1] > 0, now)); recs.append([(now,)])
+            timers.append((now, now + eff(s[1]), s[1] > 0, now)); recs.append([(now,)])
         else:
             recs.append([(now,)])
+    if now == INF:
+        recs.pop(); now = None; status = "blocked"
+    if now is None:
+        now = max([t["start"]] + [r[0][0] for r in recs if r[0][0] != INF])
     return recs, timers, now, status, sent, info
 
 
@@ -392,7 +462,7 @@ def check_snapshots(snaps):
             return "t=%d module %d: timer slots not sorted by distinct deadlines: %s" % (t, m, slots)
         if slots and slots[0][1] == 0:
             return "t=%d module %d: the front timer slot %d is empty after deactivate (next() did not prune it)" % (t, m, slots[0][0])
-        live = [d for d, c in slots if c > 0]
+        live = [d for d, c in slots if c > 0 and d < TMAX]     # a timer with deadline SimTime::MAX never elapses
         if any(d < t for d in times):
             return "t=%d module %d: a timer slot lies in the past: %s" % (t, m, slots)
         if nw is not None and nw < t and live:
@@ -409,7 +479,7 @@ def check_snapshots(snaps):
     for sn in snaps:
         last[sn[1]] = sn
     for (t, m, slots, nw) in last.values():
-        live = [d for d, c in slots if c > 0]
+        live = [d for d, c in slots if c > 0 and d < TMAX]
         if live:
             return ("t=%d module %d: Inv_wake violated: the event set is empty (the run ends) but timer slot(s) %s still hold live "
                     "timers (next_wakeup=%s)" % (t, m, [d for d in live], nw))
@@ -426,6 +496,20 @@ def monitor(script, out):
     bad = check_snapshots(snaps)
     if bad:
         return bad
+    exp0 = expect_all(tasks)
+    if all(e[3] == "done" for e in exp0):
+        # every timer slot of the real driver stands for a deadline some Sleep of the script has (deadline arithmetic is exact)
+        for mod in (0, 1):
+            allowed = {TMAX}
+            for t, e in zip(tasks, exp0):
+                if t["mod"] == mod:
+                    allowed |= {TMAX if d == INF else d for d in e[5].get("dls", ())}
+            for (ts, m, slots, nw) in snaps:
+                if m == mod:
+                    for d, c in slots:
+                        if d not in allowed:
+                            return ("t=%d module %d: a timer slot for deadline %d exists, but no Sleep of the script has that deadline "
+                                    "(now + duration computed inexactly?)" % (ts, m, d))
     if not snaps:
         return "no driver snapshots in the output"
     last = 0
@@ -519,6 +603,22 @@ def mechanisms(script, out):
                     now += b
             else:
                 _, _, now = expect_task({"mod": t["mod"], "start": now, "steps": [s]})
+    keeps = []
+    for k, t in enumerate(tasks):
+        if exp[k][5]["far_after0"]: m.add("far_future_sleep_created_after_time_zero")
+        if exp[k][5].get("far_at0"): m.add("far_future_sleep_created_at_time_zero")
+        for kp in exp[k][5]["keeps"]:
+            keeps.append((t["mod"], k, kp))
+            if kp["cut"] is not None: m.add("keepalive_rearmed_or_dropped_before_deadline")
+    for (m1, k1, a) in keeps:
+        for (m2, k2, b) in keeps:
+            if k1 < k2 and m1 == m2 and a["D"] == b["D"] and a["D"] != INF:
+                m.add("keepalive_timers_armed_to_equal_deadline")
+                first_cut = min([c for c in (a["cut"], b["cut"]) if c is not None] or [INF])
+                if a["far0"] and b["far0"] and a["at"] > 0 and b["at"] > 0 and max(a["at"], b["at"]) <= first_cut:
+                    m.add("two_far_future_sleeps_reset_to_equal_deadline")
+                    if first_cut < a["D"]:
+                        m.add("one_of_two_equal_far_future_timers_rearmed_or_dropped")
     # a message event cancels the timer the module's pending wake-up event was scheduled for
     for k, t in enumerate(tasks):
         for (D, ts, key) in exp[k][5]["cancels"]:
@@ -587,12 +687,12 @@ def gen_step(rng, now_hint):
         c = rng.random()
         if c < 0.25: return ("timeout", d, None)
         if c < 0.45: return ("timeout", d, d)
-        if c < 0.70: return ("timeout", d if rng.random() < 0.8 else rng.choice(FAR), rng.choice(SMALL))
+        if c < 0.70: return ("timeout", d if rng.random() < 0.75 else rng.choice(FAR + FAR_ODD), rng.choice(SMALL))
         return ("timeout", d, gen_dur(rng))
     if r < 0.62:
         a = gen_dur(rng)
         b = a if rng.random() < 0.3 else gen_dur(rng)
-        if rng.random() < 0.2: b = rng.choice(FAR)
+        if rng.random() < 0.25: b = rng.choice(FAR + FAR_ODD)
         # an unbiased select! polls its branches in an order drawn from tokio's RNG: when one branch is ready at the first
         # poll the other one is registered (and dropped) or not -- visible in the driver snapshots -- so such selects are biased
         return ("select", rng.random() < 0.8 or min(a, b) == 0, a, b)
@@ -603,9 +703,10 @@ def gen_step(rng, now_hint):
     if r < 0.84:
         d1 = gen_dur(rng)
         d2 = d1 if rng.random() < 0.2 else gen_dur(rng)
+        if rng.random() < 0.15: d1 = rng.choice(FAR_ODD)       # the first deadline never fires: it is reset at once
         return ("reset", rng.random() < 0.8, d1, d2)
     if r < 0.95:
-        return ("drop", gen_dur(rng))
+        return ("drop", gen_dur(rng) if rng.random() < 0.85 else rng.choice(FAR_ODD))
     return ("log",)
 
 
@@ -637,6 +738,27 @@ def gen_script(rng):
             i = rng.randrange(nt)
             tasks[i]["steps"].append(("recv", ch))
         ch += 1
+    # keep-alive timers: created disarmed (far-future: sleep(Duration::MAX), at t = 0 or later), armed by reset, several tasks arm
+    # theirs to the SAME deadline, one of them is re-armed or dropped before it -- every removal by id must hit the right entry
+    if rng.random() < 0.18:
+        m = rng.randrange(mods)
+        D = rng.choice([10, 13, 15, 20, 25])
+        for j in range(rng.choice([2, 2, 3])):
+            p0 = rng.choice([0, 1, 3, 3, 5])
+            if p0 >= D: p0 = 0
+            d2 = D - p0 if rng.random() < 0.8 else rng.choice([5, 10, 20])
+            early = (j == 0) if rng.random() < 0.8 else rng.random() < 0.5
+            if rng.random() < 0.12:
+                d2, early = rng.choice([10**16 + 1, 2**53 + 3, 10**16 + 7]), True      # armed far ahead (odd ns above 2^53), cut early
+            x = rng.randint(1, max(1, min(d2, 40) - 1)) if early else d2 + rng.choice([0, 1, 30])
+            d3 = rng.choice([5, 20, max(1, min(d2, 40) - x), 7, FARK if rng.random() < 0.1 else 9])
+            d0 = FARK if rng.random() < 0.8 else rng.choice([50, 10**16 + 1, D])
+            steps = ([("sleep", p0)] if p0 > 0 else []) + [("keep", rng.random() < 0.6, d0, d2, x, d3)]
+            if rng.random() < 0.4:
+                steps.append(gen_step(rng, p0 + min(d2, 40)))
+            tasks.append({"mod": m, "start": 0 if rng.random() < 0.8 else rng.choice([2, 5]), "steps": steps})
+        if rng.random() < 0.3:
+            tasks.append({"mod": m, "start": 0, "steps": [("sleep", 3), ("reset", True, FARK, D - 3 if D > 3 else 7)]})
     # message-driven cancellation: a task waits in timeout(d, recv) / select{recv, sleep(d)}; a task spawned by a
     # message at a scripted instant sends at once (= a message event whose handler sends on the channel); later
     # timers of the receiver's module depend on the wake-up bookkeeping surviving the cancelled timer
@@ -666,9 +788,23 @@ def gen_script(rng):
     return encode(mods, tasks)
 
 
+def affordable(script):
+    """No timer FIRES later than ~5.5 h of simulated time (the calendar queue scans 2.5 ms buckets one by one)."""
+    _, tasks = parse(script)
+    for e in expect_all(tasks):
+        for rec in e[0]:
+            if rec[0][0] != INF and rec[0][0] > 2 * 10**13:
+                return False
+    return True
+
+
 def gen(rng, n):
-    for _ in range(n):
-        yield gen_script(rng)
+    k = 0
+    while k < n:
+        sc = gen_script(rng)
+        if affordable(sc):
+            k += 1
+            yield sc
 
 
 EX_SMALL = [("sleep", 5), ("sleep", 10), ("sleep", 15), ("timeout", 10, 5), ("timeout", 5, None),
@@ -684,6 +820,8 @@ def exhaustive():
     EX_SMALL (durations 5/10/15), up to the order of the two tasks; (2) every script of two tasks on one module, the first of
     <= 3 steps spawned at start-up, the second of 1..2 steps spawned by a message at t=5, over the 13-symbol alphabet EX_ALPHABET;
     (3) every hand-over script [<=1 step] send(sleep 5/10/15) [<=1 step] | [<=1 step] receive+await [<=1 step] over EX_SMALL;
+    (5) keep-alive timers: two tasks, each [sleep 0|3] keepalive(d0 = MAX|50, armed to now+10|7, select against sleep(4|50), then
+    re-arm(now+5|20) | drop) [sleep 5]: every pair;
     (4) every message-driven cancellation script [<=1 step] timeout(10, recv)|select{recv,sleep(10)} [<=1 step] with the sender
     spawned by a message at 2/5/12 = send(sleep 5/20) [<=1 step], over EX_SMALL"""
     seqs = [s for n in range(0, 4) for s in itertools.product(EX_SMALL, repeat=n)]
@@ -706,6 +844,19 @@ def exhaustive():
                         for sb in opt:
                             yield encode(1, [{"mod": 0, "start": 0, "steps": list(pa) + [("hand", 0, d)] + list(sa)},
                                              {"mod": 0, "start": st, "steps": list(pb) + [("recv", 0)] + list(sb)}])
+    # (5) keep-alive timers
+    one = []
+    for p0 in (0, 3):
+        for rearm in (True, False):
+            for d0 in (FARK, 50):
+                for d2 in (10, 7):
+                    for x in (4, 50):
+                        for d3 in ((5, 20) if rearm else (5,)):
+                            for tail in ((), (("sleep", 5),)):
+                                one.append(([("sleep", p0)] if p0 else []) + [("keep", rearm, d0, d2, x, d3)] + list(tail))
+    for a in one:
+        for b in one:
+            yield encode(1, [{"mod": 0, "start": 0, "steps": a}, {"mod": 0, "start": 0, "steps": b}])
     # (4) message-driven cancellation: receiver = [<=1 step] timeout(10, recv) | select{recv, sleep(10)} [<=1 step],
     # sender spawned by a message at 2 / 5 / 12 = send(sleep 5|20) [<=1 step]; arrivals in the instant of the deadline excluded
     for pb in opt:
